@@ -3,6 +3,7 @@ import ClaripyProofs.Lemmas.FP.RoundModes
 import ClaripyProofs.Lemmas.FP.FoldF
 import ClaripyProofs.Lemmas.FP.IntConv
 import ClaripyProofs.Lemmas.FP.MulF
+import ClaripyProofs.Lemmas.FP.AddF
 /-!
 # C02 — IEEE-754 meaning of floating-point folding in every rounding mode
 
@@ -193,6 +194,21 @@ def fold_float_rne_full : Prop := ∀ a b : Nat, fpAdd F .RNE a b = add F .RNE a
 /-- FLOAT MULTIPLICATION, no hypothesis: the binary64 product of two binary32 values is exact (≤ 48 significant bits, exponent
 inside the binary64 range), so the fold rounds once — fold = specification under RNE for every pair of operands -/
 theorem fold_mul_float_rne (a b : Nat) : fpMul F .RNE a b = mul F .RNE a b := fpMul_F .RNE a b
+
+/-- FLOAT ADDITION, proved part: whenever the exact sum of the two binary32 values is itself a binary64 value — in particular
+whenever it has at most 53 significant bits (`sum_representable_of_53_bits`; always true when the operands' exponents differ by
+at most 29) — the Python float addition is exact and the fold rounds once: fold = specification under RNE.
+Missing for the full statement: operands whose exponents are further apart (the binary64 sum is then inexact and the classical
+innocuous-double-rounding argument is needed): `DoubleRoundingInnocuous add`. -/
+theorem fold_add_float_partial (a b : Nat) (h : SumRepresentable a b) : fpAdd F .RNE a b = add F .RNE a b :=
+  fpAdd_F_of_representable .RNE a b h
+
+theorem sum_representable_of_53_bits (a b M k : Nat) (hfa : magOf F a < F.infMag) (hfb : magOf F b < F.infMag)
+    (hS : (sintOf F a + sintOf F b).natAbs = M * 2 ^ k) (hM : M < 2 ^ 53) : SumRepresentable a b :=
+  sumRepresentable_of_53_bits a b M k hfa hfb hS hM
+
+-- non-vacuity: 1.0f + 2^-20f (exponents 20 apart; the binary32 sum is inexact, the binary64 sum exact)
+example : SumRepresentable 0x3F800000 0x35800000 := ⟨0x3FF0000100000000, by decide, by decide +kernel⟩
 
 /-- rounding depends only on the rational value of the input (a common factor of `sc` and `den` cancels) -/
 theorem round_scale_invariant (f : Fmt) (rm : RM) (neg : Bool) (sc den k : Nat) (hden : 0 < den) (hk : 0 < k) :
